@@ -6,6 +6,9 @@
 //   curves parse         stdin: one spelling per line, hex-encoded UTF-8 bytes
 //                        (empty spelling = `-`); prints `<hex> = <Variant>|reject|panic`
 //                        obtained by executing <Curve as FromStr>::from_str
+//   curves upper         stdin: one text per line (hex); prints `<hex> = <hex of str::to_uppercase() of it>`: the
+//                        normaliser Curve::from_str used before /repo db291d0, executed on every spelling of the
+//                        sweep on every run and compared with Model.Curves.unicode_upper (fourth audit)
 //   curves upper-table   one line `<code point, decimal> <text>` per character >= 128 whose
 //                        char::to_uppercase() is ASCII text (obtained by executing it on every
 //                        code point): the part of str::to_uppercase that can produce an ASCII name
@@ -142,11 +145,11 @@ fn hash_of(e: &Expression) -> u64 {
     h.finish()
 }
 
-/// Every pair of key expressions of one definition: `==` must be structural identity, and equal
-/// expressions must hash alike.
-fn eq_check<'a>(keys: &[(&'a Expression, usize)], bad: &mut Vec<Value>, pairs: &mut usize, def: &str) {
-    let ids: Vec<String> = keys.iter().map(|(e, _)| ident(e)).collect();
-    let hs: Vec<u64> = keys.iter().map(|(e, _)| hash_of(e)).collect();
+/// Every pair of key expressions of one FILE (fourth audit: across its definitions, no longer per definition):
+/// `==` must be structural identity, both ways round, and equal expressions must hash alike.
+fn eq_check(keys: &[(Expression, usize, String)], bad: &mut Vec<Value>, pairs: &mut usize) {
+    let ids: Vec<String> = keys.iter().map(|(e, _, _)| ident(e)).collect();
+    let hs: Vec<u64> = keys.iter().map(|(e, _, _)| hash_of(e)).collect();
     for i in 0..keys.len() {
         for j in i..keys.len() {
             *pairs += 1;
@@ -154,7 +157,7 @@ fn eq_check<'a>(keys: &[(&'a Expression, usize)], bad: &mut Vec<Value>, pairs: &
             let eq = keys[i].0 == keys[j].0;
             let sym = keys[j].0 == keys[i].0;
             if (eq != same || sym != same || (same && hs[i] != hs[j])) && bad.len() < 20 {
-                bad.push(json!({"definition": def, "a": keys[i].0.to_string(), "b": keys[j].0.to_string(),
+                bad.push(json!({"definition": format!("{} / {}", keys[i].2, keys[j].2), "a": keys[i].0.to_string(), "b": keys[j].0.to_string(),
                     "line_a": keys[i].1, "line_b": keys[j].1, "structurally_identical": same,
                     "eq": eq, "eq_swapped": sym, "hash_equal": hs[i] == hs[j]}));
             }
@@ -162,20 +165,20 @@ fn eq_check<'a>(keys: &[(&'a Expression, usize)], bad: &mut Vec<Value>, pairs: &
     }
 }
 
-fn index_exprs<'a>(a: &'a [AccessType], line: usize, out: &mut Vec<(&'a Expression, usize)>) {
+fn index_exprs(a: &[AccessType], line: usize, def: &str, out: &mut Vec<(Expression, usize, String)>) {
     for x in a {
         if let AccessType::ArrayAccess(e) = x {
-            out.push((e, line));
+            out.push((e.as_ref().clone(), line, def.to_string()));
         }
     }
 }
 
-fn dump_cfg(cfg: &Cfg, starts: &[usize], bad: &mut Vec<Value>, pairs: &mut usize) -> Value {
+fn dump_cfg(cfg: &Cfg, starts: &[usize], keys: &mut Vec<(Expression, usize, String)>) -> Value {
     use AssignOp::*;
     use Expression::*;
     use Statement::*;
     let mut stmts = Vec::new();
-    let mut keys: Vec<(&Expression, usize)> = Vec::new();
+    let def = cfg.name().to_string();
     for bb in cfg.iter() {
         for stmt in bb.iter() {
             let line = line_of(starts, stmt.meta().start());
@@ -193,7 +196,7 @@ fn dump_cfg(cfg: &Cfg, starts: &[usize], bad: &mut Vec<Value>, pairs: &mut usize
                     };
                     let (rhs, access): (&Expression, &[AccessType]) =
                         if let Update { access, rhe, .. } = rhe { (rhe.as_ref(), &access[..]) } else { (rhe, &[]) };
-                    index_exprs(access, line, &mut keys);
+                    index_exprs(access, line, &def, keys);
                     let call = if let Call { meta: cm, name, args } = rhs {
                         json!({"name": name, "line": line_of(starts, cm.start()), "args": args.iter().map(argval).collect::<Vec<_>>(),
                                "shown": args.iter().map(|a| a.to_string()).collect::<Vec<_>>()})
@@ -206,8 +209,8 @@ fn dump_cfg(cfg: &Cfg, starts: &[usize], bad: &mut Vec<Value>, pairs: &mut usize
                 Substitution { var, op: AssignConstraintSignal, rhe, .. } => {
                     let (value, access, upd): (&Expression, &[AccessType], bool) =
                         if let Update { access, rhe, .. } = rhe { (rhe.as_ref(), &access[..], true) } else { (rhe, &[], false) };
-                    index_exprs(access, line, &mut keys);
-                    keys.push((value, line));
+                    index_exprs(access, line, &def, keys);
+                    keys.push((value.clone(), line, def.clone()));
                     stmts.push(json!({"k": "constrain", "line": line, "var": vname(&var.without_version()), "acc": access_json(access),
                                       "update": upd, "value": ident(value), "shown": value.to_string(),
                                       "value_line": line_of(starts, value.meta().start())}));
@@ -217,10 +220,6 @@ fn dump_cfg(cfg: &Cfg, starts: &[usize], bad: &mut Vec<Value>, pairs: &mut usize
             }
         }
     }
-    if keys.len() > 700 {
-        keys.truncate(700);
-    }
-    eq_check(&keys, bad, pairs, cfg.name());
     let kind = match cfg.definition_type() {
         DefinitionType::Function => "Function",
         DefinitionType::Template => "Template",
@@ -259,10 +258,11 @@ fn ir_line(line: &str) -> String {
         let mut defs = Vec::new();
         let mut bad = Vec::new();
         let mut pairs = 0usize;
+        let mut keys: Vec<(Expression, usize, String)> = Vec::new();
         let mut tn = runner.template_names(true);
         tn.sort();
         for name in tn {
-            match verif_harness::guarded(|| runner.template(&name).ok().map(|c| dump_cfg(c, &starts, &mut bad, &mut pairs))) {
+            match verif_harness::guarded(|| runner.template(&name).ok().map(|c| dump_cfg(c, &starts, &mut keys))) {
                 Some(Some(d)) => defs.push(d),
                 Some(None) => defs.push(json!({"name": name, "error": "no cfg"})),
                 None => defs.push(json!({"name": name, "error": "panic"})),
@@ -271,13 +271,27 @@ fn ir_line(line: &str) -> String {
         let mut fnames = runner.function_names(true);
         fnames.sort();
         for name in fnames {
-            match verif_harness::guarded(|| runner.function(&name).ok().map(|c| dump_cfg(c, &starts, &mut bad, &mut pairs))) {
+            match verif_harness::guarded(|| runner.function(&name).ok().map(|c| dump_cfg(c, &starts, &mut keys))) {
                 Some(Some(d)) => defs.push(d),
                 Some(None) => defs.push(json!({"name": name, "error": "no cfg"})),
                 None => defs.push(json!({"name": name, "error": "panic"})),
             }
         }
-        json!({"curve": t[0], "defs": defs, "parse_reports": reports.len(), "eq_pairs": pairs, "eq_bad": bad})
+        // identical keys add nothing after the first few: keep at most 3 occurrences of one identity, then cap
+        let total_keys = keys.len();
+        let mut seen: std::collections::HashMap<String, usize> = std::collections::HashMap::new();
+        keys.retain(|(e, _, _)| {
+            let n = seen.entry(ident(e)).or_insert(0);
+            *n += 1;
+            *n <= 3
+        });
+        let distinct = seen.len();
+        let cap = 1400;
+        let dropped = keys.len().saturating_sub(cap);
+        keys.truncate(cap);
+        eq_check(&keys, &mut bad, &mut pairs);
+        json!({"curve": t[0], "defs": defs, "parse_reports": reports.len(), "eq_pairs": pairs, "eq_bad": bad,
+               "eq_keys": total_keys, "eq_distinct_keys": distinct, "eq_keys_dropped_by_cap": dropped})
     });
     match res {
         Some(v) => v.to_string(),
@@ -301,6 +315,13 @@ fn main() {
             }
         }
         Some("parse") => verif_harness::each_line(parse_line),
+        Some("upper") => verif_harness::each_line(|line| match unhex(line) {
+            None => format!("{} = bad-line", line),
+            Some(s) => {
+                let u = s.to_uppercase();
+                format!("{} = {}", line, if u.is_empty() { "-".to_string() } else { u.bytes().map(|b| format!("{:02x}", b)).collect::<String>() })
+            }
+        }),
         Some("upper-table") => {
             for cp in 128u32..=0x10FFFF {
                 if let Some(c) = char::from_u32(cp) {
@@ -313,7 +334,7 @@ fn main() {
         }
         Some("ir") => verif_harness::each_line(ir_line),
         _ => {
-            eprintln!("usage: curves primes | curves parse | curves upper-table | curves ir");
+            eprintln!("usage: curves primes | curves parse | curves upper | curves upper-table | curves ir");
             std::process::exit(2);
         }
     }
